@@ -390,7 +390,13 @@ package base
 //@ func ti/base.MakeUnion
 //@   safe
 //@   transparent
-//@   ensures[C09] fresh(result) && result.tType == UNION
+//@   ensures[C09,C21] fresh(result) && result.tType == UNION
+//@   # C21: the members are the given ones, in the given order (kind and class)
+//@   ensures[C21] len(result.variants) == len(variants)
+//@   ensures[C21] forall(i, 0 <= i && i < len(variants) ==> result.variants[i].tType == old(variants[i].tType) && result.variants[i].objectClass == old(variants[i].objectClass))
+//@   # (the first two members once more without a quantifier: callers that build two-member unions need no instantiation)
+//@   ensures[C21] len(variants) >= 1 ==> result.variants[0].tType == old(variants[0].tType) && result.variants[0].objectClass == old(variants[0].objectClass)
+//@   ensures[C21] len(variants) >= 2 ==> result.variants[1].tType == old(variants[1].tType) && result.variants[1].objectClass == old(variants[1].objectClass)
 
 //@ func ti/base.MakeUnknown
 //@   safe
